@@ -28,12 +28,15 @@ Proofs/NameWireSP.vos Proofs/NameWireSP.vok Proofs/NameWireSP.required_vos: Proo
 Proofs/TsigEncP.vo Proofs/TsigEncP.glob Proofs/TsigEncP.v.beautified Proofs/TsigEncP.required_vo: Proofs/TsigEncP.v Base/ListX.vo Model/TsigMsg.vo Spec/Tsig8945S.vo
 Proofs/TsigEncP.vio: Proofs/TsigEncP.v Base/ListX.vio Model/TsigMsg.vio Spec/Tsig8945S.vio
 Proofs/TsigEncP.vos Proofs/TsigEncP.vok Proofs/TsigEncP.required_vos: Proofs/TsigEncP.v Base/ListX.vos Model/TsigMsg.vos Spec/Tsig8945S.vos
+Proofs/TsigInjP.vo Proofs/TsigInjP.glob Proofs/TsigInjP.v.beautified Proofs/TsigInjP.required_vo: Proofs/TsigInjP.v Base/ListX.vo Model/TsigMsg.vo Spec/Tsig8945S.vo Spec/TsigRepr.vo Proofs/TsigEncP.vo
+Proofs/TsigInjP.vio: Proofs/TsigInjP.v Base/ListX.vio Model/TsigMsg.vio Spec/Tsig8945S.vio Spec/TsigRepr.vio Proofs/TsigEncP.vio
+Proofs/TsigInjP.vos Proofs/TsigInjP.vok Proofs/TsigInjP.required_vos: Proofs/TsigInjP.v Base/ListX.vos Model/TsigMsg.vos Spec/Tsig8945S.vos Spec/TsigRepr.vos Proofs/TsigEncP.vos
 Proofs/TsigMsgP.vo Proofs/TsigMsgP.glob Proofs/TsigMsgP.v.beautified Proofs/TsigMsgP.required_vo: Proofs/TsigMsgP.v Base/ListX.vo Model/TsigMsg.vo Spec/Tsig8945S.vo Spec/TsigRepr.vo Spec/NameRepr.vo Proofs/NameWireP.vo Proofs/TsigEncP.vo
 Proofs/TsigMsgP.vio: Proofs/TsigMsgP.v Base/ListX.vio Model/TsigMsg.vio Spec/Tsig8945S.vio Spec/TsigRepr.vio Spec/NameRepr.vio Proofs/NameWireP.vio Proofs/TsigEncP.vio
 Proofs/TsigMsgP.vos Proofs/TsigMsgP.vok Proofs/TsigMsgP.required_vos: Proofs/TsigMsgP.v Base/ListX.vos Model/TsigMsg.vos Spec/Tsig8945S.vos Spec/TsigRepr.vos Spec/NameRepr.vos Proofs/NameWireP.vos Proofs/TsigEncP.vos
-Props/C11.vo Props/C11.glob Props/C11.v.beautified Props/C11.required_vo: Props/C11.v Base/ListX.vo Model/TsigMsg.vo Spec/Tsig8945S.vo Spec/TsigRepr.vo Proofs/TsigEncP.vo Proofs/TsigMsgP.vo
-Props/C11.vio: Props/C11.v Base/ListX.vio Model/TsigMsg.vio Spec/Tsig8945S.vio Spec/TsigRepr.vio Proofs/TsigEncP.vio Proofs/TsigMsgP.vio
-Props/C11.vos Props/C11.vok Props/C11.required_vos: Props/C11.v Base/ListX.vos Model/TsigMsg.vos Spec/Tsig8945S.vos Spec/TsigRepr.vos Proofs/TsigEncP.vos Proofs/TsigMsgP.vos
+Props/C11.vo Props/C11.glob Props/C11.v.beautified Props/C11.required_vo: Props/C11.v Base/ListX.vo Model/TsigMsg.vo Spec/Tsig8945S.vo Spec/TsigRepr.vo Proofs/TsigEncP.vo Proofs/TsigMsgP.vo Proofs/TsigInjP.vo
+Props/C11.vio: Props/C11.v Base/ListX.vio Model/TsigMsg.vio Spec/Tsig8945S.vio Spec/TsigRepr.vio Proofs/TsigEncP.vio Proofs/TsigMsgP.vio Proofs/TsigInjP.vio
+Props/C11.vos Props/C11.vok Props/C11.required_vos: Props/C11.v Base/ListX.vos Model/TsigMsg.vos Spec/Tsig8945S.vos Spec/TsigRepr.vos Proofs/TsigEncP.vos Proofs/TsigMsgP.vos Proofs/TsigInjP.vos
 Props/C14.vo Props/C14.glob Props/C14.v.beautified Props/C14.required_vo: Props/C14.v Base/ListX.vo Model/NameWire.vo Spec/NameWireS.vo Spec/NameRepr.vo Proofs/NameWireP.vo Proofs/NameWireSP.vo
 Props/C14.vio: Props/C14.v Base/ListX.vio Model/NameWire.vio Spec/NameWireS.vio Spec/NameRepr.vio Proofs/NameWireP.vio Proofs/NameWireSP.vio
 Props/C14.vos Props/C14.vok Props/C14.required_vos: Props/C14.v Base/ListX.vos Model/NameWire.vos Spec/NameWireS.vos Spec/NameRepr.vos Proofs/NameWireP.vos Proofs/NameWireSP.vos
